@@ -11,6 +11,7 @@ package main
 import (
 	"bytes"
 	"crypto/sha256"
+	"encoding/asn1"
 	"encoding/base64"
 	"encoding/json"
 	"errors"
@@ -24,6 +25,7 @@ import (
 	"runtime/debug"
 	"runtime/pprof"
 	"sort"
+	"strconv"
 	"strings"
 	"time"
 
@@ -32,7 +34,10 @@ import (
 	"github.com/zmap/zcrypto/ct/client"
 	"github.com/zmap/zcrypto/ct/scanner"
 	ctx509 "github.com/zmap/zcrypto/ct/x509"
+	zasn1 "github.com/zmap/zcrypto/encoding/asn1"
 	"github.com/zmap/zcrypto/vsched"
+	zx509 "github.com/zmap/zcrypto/x509"
+	"github.com/zmap/zcrypto/x509/pkix"
 	"verifmc/internal/ev"
 	"verifmc/internal/fx"
 	"verifmc/internal/vx"
@@ -41,30 +46,83 @@ import (
 // ---- model log -----------------------------------------------------------
 
 type entry struct {
-	kind  byte // 'X' parseable x509, 'P' precert, 'U' unparsable x509
+	kind  byte // see the table below
 	leaf  []byte
 	extra []byte
 }
 
-var model []entry // up to 4 entries, built once per process
+// Entry kinds of the model log (one letter per index in scenario.Kinds):
+//
+//	X  x509 entry, parses cleanly                      -> matcher + foundCert
+//	N  x509 entry, parses with NON-FATAL errors         -> matcher + foundCert, entriesWithNonFatalErrors++
+//	   (an unknown critical extension)
+//	U  x509 entry, a well-formed TLV that is no          -> unparsableEntries++, dropped (with IgnoreParsingErrors the
+//	   certificate at all (SEQUENCE{INTEGER 5})             documentation is ambiguous: dropped or foundCert, at most once)
+//	V  x509 entry with the outer shape of a certificate  -> unparsableEntries++; dropped, but with IgnoreParsingErrors
+//	   (SEQUENCE{tbs, algorithm, bit string}) whose tbs     handed to foundCert WITHOUT consulting the matcher
+//	   is empty: fatal parse error, "valid ASN.1"
+//	P  precert entry, TBS parses                          -> matcher + foundPrecert, precertsSeen++
+//	Q  precert entry whose TBS is SEQUENCE{INTEGER 5}     -> unparsableEntries++, dropped
+//	W  precert entry whose "TBS" has the outer shape of   -> unparsableEntries++; dropped, but with IgnoreParsingErrors
+//	   a certificate (same bytes as V)                       handed to foundPrecert without the matcher, precertsSeen++
+const defaultKinds = "XPUP"
+
+var (
+	derNotACert  = []byte{0x30, 0x03, 0x02, 0x01, 0x05}
+	derCertShell = []byte{0x30, 0x0c, 0x30, 0x00, 0x30, 0x04, 0x06, 0x02, 0x2a, 0x03, 0x03, 0x02, 0x00, 0x01}
+)
+
+var model []entry // built once per process from the scenario's kinds
 
 func u24(n int) []byte { return []byte{byte(n >> 16), byte(n >> 8), byte(n)} }
 
-func buildModel() {
+func fatalParse(err error) bool {
+	if err == nil {
+		return false
+	}
+	_, nonfatal := err.(ctx509.NonFatalErrors)
+	return !nonfatal
+}
+
+func buildModel(kinds string) {
+	model = nil
 	root := fx.MustMint(fx.CertSpec{CN: "c17 root", Key: "p256", IsCA: true}, nil)
-	for i := 0; i < 4; i++ {
-		kinds := "XPUP"
+	// sanity of the fixed byte strings against the standard library: derCertShell has the top-level shape of a
+	// certificate, derNotACert has not
+	var shell struct {
+		TBS asn1.RawValue
+		Alg struct {
+			OID asn1.ObjectIdentifier
+		}
+		Sig asn1.BitString
+	}
+	if rest, err := asn1.Unmarshal(derCertShell, &shell); err != nil || len(rest) != 0 {
+		panic("model: derCertShell is not SEQUENCE{any, SEQUENCE{OID}, BIT STRING}")
+	}
+	if _, err := asn1.Unmarshal(derNotACert, &shell); err == nil {
+		panic("model: derNotACert has the shape of a certificate")
+	}
+	for i := 0; i < len(kinds); i++ {
 		k := kinds[i]
-		c := fx.MustMint(fx.CertSpec{CN: fmt.Sprintf("leaf%d.example", i), Key: "p256b", Serial: int64(100 + i), DNS: []string{fmt.Sprintf("leaf%d.example", i)}}, root)
+		spec := fx.CertSpec{CN: fmt.Sprintf("leaf%d.example", i), Key: "p256b", Serial: int64(100 + i), DNS: []string{fmt.Sprintf("leaf%d.example", i)}}
+		if k == 'N' {
+			spec.Tweak = func(t *zx509.Certificate) {
+				t.ExtraExtensions = append(t.ExtraExtensions, pkix.Extension{Id: zasn1.ObjectIdentifier{1, 3, 6, 1, 4, 1, 99999, 17}, Critical: true, Value: []byte{0x05, 0x00}})
+			}
+		}
+		c := fx.MustMint(spec, root)
 		var leaf bytes.Buffer
 		leaf.Write([]byte{0, 0})                            // version v1, leaf_type timestamped_entry
 		leaf.Write([]byte{0, 0, 0, 0, 0, 0, 0x10, byte(i)}) // timestamp = 0x1000+i identifies the entry
 		var extra bytes.Buffer
 		switch k {
-		case 'X', 'U':
+		case 'X', 'N', 'U', 'V':
 			der := c.DER
 			if k == 'U' {
-				der = append([]byte{0x30, 0x03, 0x02, 0x01}, 0x05) // well-formed TLV, not a certificate
+				der = derNotACert
+			}
+			if k == 'V' {
+				der = derCertShell
 			}
 			leaf.Write([]byte{0, 0})
 			leaf.Write(u24(len(der)))
@@ -73,11 +131,27 @@ func buildModel() {
 			chain := append(u24(len(root.DER)), root.DER...)
 			extra.Write(u24(len(chain)))
 			extra.Write(chain)
-		case 'P':
+			// sanity: the CT x509 fork must classify the entries as intended
+			_, err := ctx509.ParseCertificate(der)
+			switch {
+			case k == 'X' && err != nil:
+				panic("model: X entry does not parse cleanly: " + err.Error())
+			case k == 'N' && (err == nil || fatalParse(err)):
+				panic(fmt.Sprintf("model: N entry does not parse with non-fatal errors: %v", err))
+			case (k == 'U' || k == 'V') && !fatalParse(err):
+				panic("model: U/V entry parses")
+			}
+		case 'P', 'Q', 'W':
 			leaf.Write([]byte{0, 1})
 			h := sha256.Sum256(root.X.RawSubjectPublicKeyInfo)
 			leaf.Write(h[:])
 			tbs := c.X.RawTBSCertificate
+			if k == 'Q' {
+				tbs = derNotACert
+			}
+			if k == 'W' {
+				tbs = derCertShell
+			}
 			leaf.Write(u24(len(tbs)))
 			leaf.Write(tbs)
 			leaf.Write([]byte{0, 0})
@@ -86,41 +160,64 @@ func buildModel() {
 			chain := append(u24(len(root.DER)), root.DER...)
 			extra.Write(u24(len(chain)))
 			extra.Write(chain)
+			_, err := ctx509.ParseTBSCertificate(tbs)
+			switch {
+			case k == 'P' && err != nil:
+				panic("model: P entry does not parse cleanly: " + err.Error())
+			case k != 'P' && !fatalParse(err):
+				panic("model: Q/W entry parses")
+			}
+		default:
+			panic("model: unknown entry kind " + string(k))
 		}
 		model = append(model, entry{k, leaf.Bytes(), extra.Bytes()})
-		// sanity: the CT x509 fork must classify the entries as intended
-		if k == 'X' {
-			if _, err := ctx509.ParseCertificate(c.DER); err != nil {
-				if _, nonfatal := err.(ctx509.NonFatalErrors); !nonfatal {
-					panic("model: X entry does not parse: " + err.Error())
-				}
-			}
-		}
-		if k == 'P' {
-			if _, err := ctx509.ParseTBSCertificate(c.X.RawTBSCertificate); err != nil {
-				if _, nonfatal := err.(ctx509.NonFatalErrors); !nonfatal {
-					panic("model: P entry does not parse: " + err.Error())
-				}
-			}
-		}
 	}
 }
 
 // ---- scenario -------------------------------------------------------------
 
 type scenario struct {
-	N        int   `json:"n"`
-	Batch    int64 `json:"batch"`
-	Fetchers int   `json:"fetchers"`
-	Workers  int   `json:"workers"`
-	Start    int64 `json:"start"`
-	Max      int64 `json:"max"`
-	PreOnly  bool  `json:"precert_only"`
-	Updater  int   `json:"updater"` // 0 nil, 1 buffered(8)
-	PB       int   `json:"preempt_bound"`
-	EB       int   `json:"fault_bound"`
-	Race     bool  `json:"race"`
-	MaxExecs int   `json:"max_execs"`
+	N         int    `json:"n"`
+	Kinds     string `json:"kinds,omitempty"` // entry kinds of the log (len = N); "" = the first N of "XPUP"
+	Sth       int    `json:"sth,omitempty"`   // tree size reported by get-sth when it differs from N (the log has grown since)
+	Batch     int64  `json:"batch"`
+	Fetchers  int    `json:"fetchers"`
+	Workers   int    `json:"workers"`
+	Start     int64  `json:"start"`
+	Max       int64  `json:"max"`
+	PreOnly   bool   `json:"precert_only"`
+	IgnoreErr bool   `json:"ignore_parsing_errors,omitempty"`
+	Updater   int    `json:"updater"` // 0 nil, 1 buffered(8) nobody receiving, 2 buffered(1) with a consumer thread
+	PB        int    `json:"preempt_bound"`
+	EB        int    `json:"fault_bound"`
+	Race      bool   `json:"race"`
+	MaxExecs  int    `json:"max_execs"`
+}
+
+func (s scenario) kinds() string {
+	if s.Kinds != "" {
+		return s.Kinds
+	}
+	return defaultKinds[:s.N]
+}
+
+// stop0 is the tree size the server reports.
+func (s scenario) stop0() int {
+	if s.Sth > 0 {
+		return s.Sth
+	}
+	return s.N
+}
+
+// stop is the index the scan must end at: MaximumIndex, or the tree size of the STH when that is 0.
+func (s scenario) stop() int64 {
+	if s.Max > 0 {
+		return s.Max
+	}
+	if s.Sth > 0 {
+		return int64(s.Sth)
+	}
+	return int64(s.N)
 }
 
 func (s scenario) String() string {
@@ -140,6 +237,18 @@ type obs struct {
 	done    bool
 	reqs    int
 	answers [64]string
+	nupd    int
+	upd     [16]int64 // values received from the updater channel, in order
+	counted bool
+	ctr     [4]int64 // certsProcessed, precertsSeen, unparsableEntries, entriesWithNonFatalErrors after Scan
+}
+
+//go:norace
+func (o *obs) addUpd(v int64) {
+	if o.nupd < len(o.upd) {
+		o.upd[o.nupd] = v
+	}
+	o.nupd++
 }
 
 //go:norace
@@ -187,7 +296,7 @@ func (r *rt) RoundTrip(req *http.Request) (*http.Response, error) {
 	if strings.HasSuffix(req.URL.Path, "get-sth") {
 		root := base64.StdEncoding.EncodeToString(make([]byte, 32))
 		sig := base64.StdEncoding.EncodeToString([]byte{4, 3, 0, 2, 1, 2})
-		return mk(200, fmt.Sprintf(`{"tree_size":%d,"timestamp":1,"sha256_root_hash":"%s","tree_head_signature":"%s"}`, r.sc.N, root, sig)), nil
+		return mk(200, fmt.Sprintf(`{"tree_size":%d,"timestamp":1,"sha256_root_hash":"%s","tree_head_signature":"%s"}`, r.sc.stop0(), root, sig)), nil
 	}
 	var start, end int64
 	fmt.Sscanf(req.URL.RawQuery, "start=%d&end=%d", &start, &end)
@@ -234,11 +343,25 @@ func runOnce(sc scenario, prefix []int) (vsched.Result, *obs) {
 	res := vsched.Run(prefix, func() {
 		lc := client.NewWithHTTPClient("http://log.example/", &http.Client{Transport: &rt{sc, o}})
 		opts := scanner.ScannerOptions{Matcher: matcher{o}, PrecertOnly: sc.PreOnly, BatchSize: sc.Batch, NumWorkers: sc.Workers,
-			ParallelFetch: sc.Fetchers, StartIndex: sc.Start, MaximumIndex: sc.Max, Quiet: true, Name: "model"}
+			ParallelFetch: sc.Fetchers, StartIndex: sc.Start, MaximumIndex: sc.Max, Quiet: true, Name: "model", IgnoreParsingErrors: sc.IgnoreErr}
 		s := scanner.NewScanner(lc, opts, quietLogger)
 		var upd chan int64
-		if sc.Updater == 1 {
+		switch sc.Updater {
+		case 1:
 			upd = make(chan int64, 8)
+		case 2:
+			// the scheduler model has no rendezvous channels: the closest to "unbuffered with a consumer" is one slot
+			// and a consumer thread (parked in the receive when Scan returns; unwound with the execution)
+			upd = make(chan int64, 1)
+			vsched.Go(func() {
+				for {
+					v, ok := vsched.Recv2(upd)
+					if !ok {
+						return
+					}
+					o.addUpd(v)
+				}
+			})
 		}
 		ret, err := s.Scan(func(e *ct.LogEntry, _ string) {
 			o.add('c', int(e.Leaf.TimestampedEntry.Timestamp)-0x1000, e.Index)
@@ -248,6 +371,18 @@ func runOnce(sc scenario, prefix []int) (vsched.Result, *obs) {
 		o.ret = ret
 		if err != nil {
 			o.err = err.Error()
+		}
+		o.ctr = s.VerifC17Counters()
+		o.counted = true
+		if upd != nil {
+			// what is still buffered (the progress goroutine never closes the channel)
+			for {
+				v, _, sel := vsched.TryRecv(upd)
+				if !sel {
+					break
+				}
+				o.addUpd(v)
+			}
 		}
 		o.done = true
 	})
@@ -271,14 +406,15 @@ func judge(sc scenario, res vsched.Result, o *obs) (string, string) {
 	if o.err != "" {
 		return "Scan returned an error: " + ev.MsgClass(o.err), ""
 	}
-	stop := int64(sc.N)
-	if sc.Max > 0 {
-		stop = sc.Max
+	stop := sc.stop()
+	inRange := int64(0)
+	if stop > sc.Start {
+		inRange = stop - sc.Start
 	}
-	if want := stop; o.ret != want && sc.Start < stop {
+	if want := sc.Start + inRange; o.ret != want {
 		return "Scan return value is not start index + entries processed", fmt.Sprintf("returned %d, want %d", o.ret, want)
 	}
-	// expected multiset of observations
+	// expected multiset of observations: [min,max] deliveries per (callback, entry)
 	type key struct {
 		w  byte
 		id int
@@ -290,30 +426,93 @@ func judge(sc scenario, res vsched.Result, o *obs) (string, string) {
 			return "entry handed over with a wrong index", fmt.Sprintf("entry %d reported with index %d", o.id[i], o.idx[i])
 		}
 	}
-	want := map[key]int{}
+	type span struct{ min, max int }
+	want := map[key]span{}
+	one := span{1, 1}
+	// expected counters: certsProcessed exact; the others [min,max] (where the documentation leaves a point open)
+	var ctrMin, ctrMax [4]int64
+	ctrMin[0], ctrMax[0] = inRange, inRange
+	bump := func(i int, lo, hi int64) { ctrMin[i] += lo; ctrMax[i] += hi }
 	for i := sc.Start; i < stop; i++ {
-		switch model[i].kind {
-		case 'X':
-			if !sc.PreOnly {
-				want[key{'m', int(i)}]++
-				want[key{'c', int(i)}]++
+		k := model[i].kind
+		isX509 := k == 'X' || k == 'N' || k == 'U' || k == 'V'
+		if isX509 && sc.PreOnly {
+			continue // "match precerts only": x509 entries are counted as processed and skipped
+		}
+		switch k {
+		case 'X', 'N':
+			want[key{'m', int(i)}] = one
+			want[key{'c', int(i)}] = one
+			if k == 'N' {
+				bump(3, 1, 1)
+			}
+		case 'U':
+			bump(2, 1, 1)
+			if sc.IgnoreErr {
+				// "always output encountered certificates, so long as they are valid ASN.1": a well-formed TLV that
+				// is not shaped like a certificate may or may not count as such; never more than once, never matched
+				want[key{'c', int(i)}] = span{0, 1}
+			}
+		case 'V':
+			bump(2, 1, 1)
+			if sc.IgnoreErr {
+				want[key{'c', int(i)}] = one
 			}
 		case 'P':
-			want[key{'q', int(i)}]++
-			want[key{'p', int(i)}]++
+			want[key{'q', int(i)}] = one
+			want[key{'p', int(i)}] = one
+			bump(1, 1, 1)
+		case 'Q':
+			bump(2, 1, 1)
+			bump(1, 0, 1) // "precertificates encountered": whether an unparsable one counts is not specified
+		case 'W':
+			bump(2, 1, 1)
+			if sc.IgnoreErr {
+				want[key{'p', int(i)}] = one
+				bump(1, 1, 1)
+			} else {
+				bump(1, 0, 1)
+			}
 		}
 	}
-	for k, n := range want {
-		if got[k] < n {
-			return "an entry of the scanned range was never handed to the matcher/callback", fmt.Sprintf("entry %d (%c): got %d want %d", k.id, k.w, got[k], n)
+	for k, w := range want {
+		if got[k] < w.min {
+			return "an entry of the scanned range was never handed to the matcher/callback", fmt.Sprintf("entry %d (%c, kind %c): got %d want %d", k.id, k.w, model[k.id].kind, got[k], w.min)
 		}
 	}
 	for k, n := range got {
-		if n > want[k] {
-			if want[k] == 0 {
-				return "an entry outside the expected set was handed to the matcher/callback", fmt.Sprintf("entry %d (%c) x%d", k.id, k.w, n)
+		if n > want[k].max {
+			if want[k].max == 0 {
+				kind := byte('?')
+				if k.id >= 0 && k.id < len(model) {
+					kind = model[k.id].kind
+				}
+				return "an entry outside the expected set was handed to the matcher/callback", fmt.Sprintf("entry %d (%c, kind %c) x%d", k.id, k.w, kind, n)
 			}
-			return "an entry was handed to the matcher/callback more than once", fmt.Sprintf("entry %d (%c): got %d want %d", k.id, k.w, n, want[k])
+			return "an entry was handed to the matcher/callback more than once", fmt.Sprintf("entry %d (%c): got %d want %d", k.id, k.w, n, want[k].max)
+		}
+	}
+	// counter values after Scan
+	if !o.counted {
+		return "counters could not be read", ""
+	}
+	names := [4]string{"certsProcessed", "precertsSeen", "unparsableEntries", "entriesWithNonFatalErrors"}
+	for i := range names {
+		if o.ctr[i] < ctrMin[i] || o.ctr[i] > ctrMax[i] {
+			return "counter " + names[i] + " does not match the entries of the scanned range", fmt.Sprintf("%s=%d, want %d..%d (counters %v, kinds %s range [%d,%d))", names[i], o.ctr[i], ctrMin[i], ctrMax[i], o.ctr, sc.kinds(), sc.Start, stop)
+		}
+	}
+	// progress values: start index + entries processed so far, hence never decreasing and within [start, stop]
+	if o.nupd > len(o.upd) {
+		return "more progress values than the model can hold", fmt.Sprint(o.nupd)
+	}
+	for i := 0; i < o.nupd; i++ {
+		v := o.upd[i]
+		if i > 0 && v < o.upd[i-1] {
+			return "progress values sent to the updater channel decrease", fmt.Sprint(o.upd[:o.nupd])
+		}
+		if sc.Start <= stop && (v < sc.Start || v > stop) {
+			return "progress value sent to the updater channel is outside [start index, end index]", fmt.Sprintf("%v, range [%d,%d]", o.upd[:o.nupd], sc.Start, stop)
 		}
 	}
 	return "", ""
@@ -364,7 +563,7 @@ func worker(job string) {
 	if pf := os.Getenv("C17_PROFILE"); pf != "" {
 		var sc scenario
 		json.Unmarshal([]byte(job), &sc)
-		buildModel()
+		buildModel(sc.kinds())
 		f, _ := os.Create(pf)
 		pprof.StartCPUProfile(f)
 		t0 := time.Now()
@@ -385,7 +584,7 @@ func worker(job string) {
 		fmt.Println(`{"job":"?","broken":"bad job"}`)
 		return
 	}
-	buildModel()
+	buildModel(sc.kinds())
 	out := vx.WorkerOut{Job: job, Outcomes: map[string]int64{}, Bound: -1}
 	raceLog := ""
 	if sc.Race {
@@ -396,9 +595,9 @@ func worker(job string) {
 		repo = "/repo"
 	}
 	seen := map[string]bool{}
-	deadline := time.Now().Add(100 * time.Second)
+	deadline := time.Now().Add(scaled(100 * time.Second))
 	if os.Getenv("VERIF_TIER") == "thorough" {
-		deadline = time.Now().Add(20 * time.Minute)
+		deadline = time.Now().Add(scaled(20 * time.Minute))
 	}
 	for b := 0; b <= sc.PB; b++ {
 		st := vx.Explore(vx.Options{PreemptBound: b, EnvBound: sc.EB, MaxExecs: sc.MaxExecs, Deadline: deadline, RaceLog: raceLog},
@@ -497,7 +696,11 @@ func scenarios(thorough, race bool) []scenario {
 			add(4, 1, 2, 2, 0, 1, nil)
 		}
 		add(3, 3, 1, 2, 0, 2, nil) // two back-offs: the 1 s progress ticker fires
-		add(3, 2, 2, 2, 0, 2, nil)
+		if thorough {
+			add(3, 2, 2, 2, 0, 2, nil)
+		} else {
+			add(2, 1, 2, 2, 0, 2, nil) // quick: the same with 2 entries (38k -> a few thousand schedules under TSan)
+		}
 		add(3, 3, 1, 2, 1, 0, nil)
 		add(3, 3, 2, 1, 1, 0, nil)
 		if thorough {
@@ -512,6 +715,19 @@ func scenarios(thorough, race bool) []scenario {
 			add(3, 1, 2, 2, 1, 1, nil)
 			add(3, 3, 1, 2, 1, 2, nil)
 		}
+		// strengthening: IgnoreParsingErrors, all entry kinds, updater with a consumer, second x509 entry, degenerate ranges
+		add(4, 2, 2, 2, 0, 1, func(s *scenario) { s.Kinds, s.IgnoreErr = "XVWU", true })
+		add(4, 2, 2, 2, 0, 1, func(s *scenario) { s.Kinds = "NVQW" })
+		add(4, 1, 2, 2, 0, 1, func(s *scenario) { s.Kinds = "XPUX" })
+		add(3, 3, 1, 2, 0, 2, func(s *scenario) { s.Updater = 2 })
+		add(3, 1, 1, 1, 0, 4, func(s *scenario) { s.Start, s.Updater = 1, 2 })
+		add(3, 2, 2, 2, 1, 0, func(s *scenario) { s.Start = 3 })
+		add(4, 2, 2, 2, 0, 1, func(s *scenario) { s.Sth, s.Max = 2, 4 })
+		if thorough {
+			add(4, 2, 2, 2, 1, 0, func(s *scenario) { s.Kinds, s.IgnoreErr = "XVWU", true })
+			add(4, 2, 1, 2, 1, 1, func(s *scenario) { s.Kinds = "XPUX" })
+			add(3, 1, 1, 1, 1, 2, func(s *scenario) { s.Start, s.Updater = 1, 2 })
+		}
 		return out
 	}
 	for _, batch := range []int64{1, 2, 4} {
@@ -524,10 +740,15 @@ func scenarios(thorough, race bool) []scenario {
 	add(4, 2, 1, 2, 1, 0, nil)
 	add(4, 2, 1, 2, 0, 1, nil)
 	for _, nb := range [][2]int64{{3, 2}, {4, 2}, {4, 5}, {3, 1}} {
-		if thorough || nb[0] == 3 && nb[1] == 2 {
+		if thorough {
 			add(int(nb[0]), nb[1], 2, 2, 1, 0, nil)
 		}
 		add(int(nb[0]), nb[1], 2, 2, 0, 1, nil)
+	}
+	if !thorough {
+		// quick: two fetchers x two matchers under one preemption on a 2-entry log (the 3-entry one, 260k schedules
+		// and the longest job of the tier, moved to thorough to make room for the scenarios below)
+		add(2, 1, 2, 2, 1, 0, nil)
 	}
 	// option axes
 	add(4, 2, 2, 1, 1, 0, func(s *scenario) { s.Start = 1 })
@@ -542,7 +763,39 @@ func scenarios(thorough, race bool) []scenario {
 	// two faults, no preemption: the 1 s progress ticker fires during the second 500 ms back-off
 	add(3, 3, 1, 2, 0, 2, nil)
 	add(4, 2, 2, 2, 0, 2, nil)
+	// ---- strengthening ----
+	// IgnoreParsingErrors on/off over all entry kinds (see the table at the top); counters are asserted in every scenario
+	add(4, 2, 1, 2, 1, 0, func(s *scenario) { s.Kinds, s.IgnoreErr = "XVWU", true })
+	add(4, 2, 2, 1, 0, 1, func(s *scenario) { s.Kinds, s.IgnoreErr = "XVWU", true })
+	add(4, 2, 1, 2, 1, 0, func(s *scenario) { s.Kinds = "NVQW" })
+	add(4, 2, 2, 1, 0, 1, func(s *scenario) { s.Kinds = "NVQW" })
+	add(4, 4, 1, 1, 1, 1, func(s *scenario) { s.Kinds, s.IgnoreErr, s.PreOnly = "NVQW", true, true })
+	add(4, 1, 1, 1, 1, 1, func(s *scenario) { s.Kinds, s.IgnoreErr = "UVNW", true })
+	// a second x509 entry at index 3
+	add(4, 2, 1, 2, 1, 0, func(s *scenario) { s.Kinds = "XPUX" })
+	add(4, 1, 2, 2, 0, 1, func(s *scenario) { s.Kinds = "XPUX" })
+	add(4, 2, 1, 1, 1, 1, func(s *scenario) { s.Kinds = "XPUX" })
+	// updater channel with a consumer thread; four faults = two ticks of the progress goroutine with different values
+	add(3, 3, 1, 2, 0, 2, func(s *scenario) { s.Updater = 2 })
+	add(3, 1, 1, 1, 0, 4, func(s *scenario) { s.Start, s.Updater = 1, 2 })
+	add(3, 2, 1, 1, 1, 2, func(s *scenario) { s.Updater = 2 })
+	// degenerate ranges: start == stop, start > stop
+	add(3, 2, 2, 2, 1, 1, func(s *scenario) { s.Start = 3 })
+	add(3, 2, 2, 1, 1, 1, func(s *scenario) { s.Start, s.Max = 2, 2 })
+	add(3, 2, 1, 2, 1, 1, func(s *scenario) { s.Start, s.Max = 3, 1 })
+	// MaximumIndex beyond the tree size of the STH (the log has grown to N since), and an STH smaller than the log
+	add(4, 2, 1, 2, 1, 0, func(s *scenario) { s.Sth, s.Max = 2, 4 })
+	add(4, 2, 2, 1, 0, 1, func(s *scenario) { s.Sth, s.Max = 2, 3 })
+	add(4, 2, 1, 1, 1, 1, func(s *scenario) { s.Sth = 2 })
 	if thorough {
+		add(4, 2, 2, 2, 1, 0, func(s *scenario) { s.Kinds, s.IgnoreErr = "XVWU", true })
+		add(4, 2, 1, 2, 1, 1, func(s *scenario) { s.Kinds, s.IgnoreErr = "XVWU", true })
+		add(4, 2, 1, 2, 1, 1, func(s *scenario) { s.Kinds = "NVQW" })
+		add(4, 2, 1, 2, 1, 1, func(s *scenario) { s.Kinds = "XPUX" })
+		add(4, 1, 2, 2, 1, 0, func(s *scenario) { s.Kinds = "XPUX" })
+		add(3, 1, 1, 2, 1, 2, func(s *scenario) { s.Start, s.Updater = 1, 2 })
+		add(3, 1, 1, 1, 1, 4, func(s *scenario) { s.Start, s.Updater = 1, 2 })
+		add(4, 2, 2, 2, 1, 0, func(s *scenario) { s.Sth, s.Max = 2, 4 })
 		add(4, 2, 1, 2, 1, 1, nil)
 		add(3, 2, 1, 1, 2, 1, nil)
 		add(3, 2, 1, 1, 1, 2, nil)
@@ -558,6 +811,15 @@ func scenarios(thorough, race bool) []scenario {
 		add(3, 2, 2, 2, 1, 1, func(s *scenario) { s.Updater = 0 })
 	}
 	return out
+}
+
+// scaled stretches the wall-clock budgets (which only ever turn a run into "incomplete", never into a
+// verdict) by VERIF_TIME_SCALE, for runs on a machine that is shared and loaded.
+func scaled(d time.Duration) time.Duration {
+	if f, err := strconv.ParseFloat(os.Getenv("VERIF_TIME_SCALE"), 64); err == nil && f >= 1 && f <= 100 {
+		return time.Duration(float64(d) * f)
+	}
+	return d
 }
 
 func main() {
@@ -585,7 +847,7 @@ func main() {
 			if err := json.Unmarshal(c.Replay, &w); err != nil {
 				c.Broken("bad witness: %v", err)
 			}
-			buildModel()
+			buildModel(w.Scenario.kinds())
 			res, o := runOnce(w.Scenario, w.Schedule)
 			res2, o2 := runOnce(w.Scenario, w.Schedule)
 			if fmt.Sprint(res.Points) != fmt.Sprint(res2.Points) || *o != *o2 {
@@ -603,9 +865,9 @@ func main() {
 		for _, s := range scs {
 			jobs = append(jobs, s.String())
 		}
-		perJob := 140 * time.Second
+		perJob := scaled(140 * time.Second)
 		if thorough {
-			perJob = 24 * time.Minute
+			perJob = scaled(24 * time.Minute)
 		}
 		outs := vx.RunWorkers(self, []string{"VERIF_TIER=" + c.Tier}, jobs, c.Workers(), perJob)
 		perScenario := map[string]any{}
